@@ -195,6 +195,7 @@ inductive Tag
   | innerErr      -- `error()` of a parser made with exit_on_error=False, while the user's parser exits
   | forcedExit    -- `error()` of a parser made with exit_on_error=True, while the user's parser raises
   | typeImport    -- raised by the `Type[..]` branch of adapt_typehints, which has no handler
+  | directArgErr  -- a handler that raises ArgumentError itself instead of calling `error()`, while the user's parser exits
 deriving DecidableEq, Repr
 
 /-- what is in flight -/
@@ -236,7 +237,8 @@ def applyAct (T : Tables) (top eff : Bool) (a : Act) (s : Sig) : Sig :=
   | .callsError => errorSig T top eff
   | .raises d =>
     -- an ArgumentError of an internal parser wrapped into another ArgumentError (get_defaults) is still that failure
-    .exc d (if s.tag = .innerErr && sub T d .ArgumentError then .innerErr else .clean)
+    .exc d (if s.tag = .innerErr && sub T d .ArgumentError then .innerErr
+            else if top && sub T d .ArgumentError then .directArgErr else .clean)
   | .same => s
   | .swallow => .cont
 
@@ -397,7 +399,7 @@ def children : Region → List Region
   | .helpBody => bodyChildren .parseArgs
   | .defaultsEnv => [.getDefaults, .envLoad, .merge]
   | .getDefaults => [.defPaths, .defContent, .lcpm, .merge, .defCommon, .subDefaults]
-  | .defCommon => [.links]   -- _parse_common(skip_validation=True, defaults=False, env=False, fail_no_subcommand=False): only the links can fail
+  | .defCommon => [.subcommands, .links]   -- _parse_common(skip_validation=True, defaults=False, env=False, fail_no_subcommand=False)
   | .envLoad => [.applyConfig, .checkValueKey, .body .parseEnv, .envList, .applyActions]
   | .envList => [.loadValue]
   | .lcpm => [.lcpmLoad, .applyActions]
@@ -488,7 +490,7 @@ def designed (mode : Mode) : Region → List DSig
   | .loadDoc => [.loader]
   | .yamlConstruct => if mode = .yaml || mode = .jsonnet then [.exc .YAMLError, .exc .ValueError] else []
   | .yamlAlways => [.exc .YAMLError, .exc .ValueError]
-  | .subcommands => [.exc .KeyError]                 -- NSKeyError: required sub-command missing
+  | .subcommands => [.exc .KeyError, .exc .TypeError] -- NSKeyError: required sub-command missing; TypeError: a sub-command name that is not hashable
   | .printConfig => [.exit0]
   | .links => [.exc .Exception]                      -- user compute_fn: anything
   | .validate => [.exc .KeyError]                    -- NSKeyError: unexpected key
@@ -507,7 +509,7 @@ def designed (mode : Mode) : Region → List DSig
   | .callable => [.exc .ImportError, .exc .AttributeError, .exc .ValueError]
   | .dataclass => [.exc .ValueError]
   | .classType => [.exc .ImportError, .exc .AttributeError]
-  | .knownArgs => [.exc .ArgumentError]
+  | .knownArgs => [.exc .ArgumentError, .exc .TypeError] -- argparse itself; actions that have no region of their own (ActionYesNo, ActionParser)
   | .acPath => [.exc .TypeError]
   | .configLoad => [.exc .TypeError]
   | .printConfigAction => [.exc .ArgumentError]
@@ -610,18 +612,17 @@ def Region.code : Region → Nat
 
 def St.idx (st : St) : Nat := 2 * st.1.code + (if st.2 then 1 else 0)
 
-def Tag.ofCode (n : Nat) : Tag := Tag.ofNat n
 
 /-- signals as plain numbers (membership tests on numbers are fast in the kernel) -/
 def Sig.code : Sig → Nat
   | .cont => 0
-  | .exc c t => 1 + 2 * (c.ctorIdx * 4 + t.ctorIdx)
-  | .exit n t => 2 + 2 * (n * 4 + t.ctorIdx)
+  | .exc c t => 1 + 2 * (c.ctorIdx * 8 + t.ctorIdx)
+  | .exit n t => 2 + 2 * (n * 8 + t.ctorIdx)
 
 def Sig.ofCode (k : Nat) : Sig :=
   if k = 0 then .cont
-  else if k % 2 = 1 then .exc (Exc.ofNat ((k - 1) / 2 / 4)) (Tag.ofNat ((k - 1) / 2 % 4))
-  else .exit ((k - 2) / 2 / 4) (Tag.ofNat ((k - 2) / 2 % 4))
+  else if k % 2 = 1 then .exc (Exc.ofNat ((k - 1) / 2 / 8)) (Tag.ofNat ((k - 1) / 2 % 8))
+  else .exit ((k - 2) / 2 / 8) (Tag.ofNat ((k - 2) / 2 % 8))
 
 /-- one list of signal codes per state, in the order of `St.all` -/
 abbrev Flight := List (List Nat)
